@@ -447,6 +447,9 @@ def run(ck: Checker) -> None:
     ck.guard("R-TREE-IDENT", lambda: r_tree_ident(ck))
     ck.guard("R-TREE-RAISE", lambda: r_tree_raise(ck))
     ck.guard("R-TREE-RAISE", lambda: r_tree_keyerror_kept(ck))
+    from . import state_rules as S6
+    ck.guard("R-TREE-CHAIN", lambda: S6.r_iter_once(ck, "R-TREE-CHAIN", ("pyoak.tree",)))
+    ck.guard("R-TREE-FILL", lambda: S6.r_late_binding(ck, "R-TREE-FILL", ("pyoak.node", "pyoak.tree")))
     ck.guard("R-TREE-CHAIN", lambda: r_tree_chain(ck))
     ck.guard("R-TREE-TYPE", lambda: r_tree_type(ck))
     ck.guard("R-TREE-STATE", lambda: r_tree_state(ck))
